@@ -230,7 +230,12 @@ def quote_block(draw, feat, depth, ctx=()):
 
 @st.composite
 def footnote_block(draw, feat, depth, ctx=()):
-    body = draw(blocks(feat, depth - 1, 1, 2, ctx + ('fn',))) if depth > 0 else draw(para_lines(feat, 1, 15))
+    body = draw(para_lines(feat, 1, 15))
+    if depth > 0 and draw(st.booleans()):
+        if "fn_nonpara_first" in feat and draw(st.booleans()):
+            body = draw(blocks(feat, depth - 1, 1, 2, ctx + ('fn',)))
+        else:
+            body = body + [""] + draw(blocks(feat, depth - 1, 1, 2, ctx + ('fn',)))
     return indent(body, "[^fn1]: ", "    ")
 
 def block_(feat, depth, ctx=()):
@@ -253,5 +258,5 @@ def doc(feat, depth=2, hi=5):
 
 ALL = frozenset(["haz_" + k for k in HAZ] + ["cjk", "emph", "strike", "code", "link", "reflink", "autolink", "html", "tags", "escape", "fnref", "entity",
                  "hardbreak", "spaces", "code_fences_inside", "atx", "setext", "fenced", "indcode", "table", "hr", "refdef", "tagline", "tightjoin", "blanklines",
-                 "list", "olist", "olist_paren", "escape_tick", "sent_end_in_atom", "code_taglike", "task", "listpad", "lazy", "quote", "alert", "footnote"])
+                 "list", "olist", "olist_paren", "escape_tick", "sent_end_in_atom", "code_taglike", "fn_nonpara_first", "task", "listpad", "lazy", "quote", "alert", "footnote"])
 BASIC = frozenset(["emph", "code", "link", "atx", "fenced", "list", "olist", "quote", "hr", "table"])
